@@ -295,6 +295,41 @@ def run_ok(args, cwd):
     return code, out, err
 
 
+_COMP = {"A": "T", "T": "A", "C": "G", "G": "C"}
+
+
+def lo_free_canon(prefix):
+    """reference-free `ska lo` output up to order and strand: SNP columns (a column or its
+    complement), indel records (a record or the same record read on the other strand; when as many
+    samples are genotyped 0 as 1 there is no 'most frequent' allele and REF/ALT may be swapped)"""
+    out = {"snps": None, "indels": None}
+    p = prefix + "_snps.fas"
+    if os.path.exists(p):
+        recs = read_fasta(p)
+        n = len(recs[0][1]) if recs else 0
+        cols = ["".join(r[1][i] for r in recs) for i in range(n)]
+        out["snps"] = sorted(min(c, "".join(_COMP.get(x, x) for x in c)) for c in cols)
+    p = prefix + "_indels.vcf"
+    if os.path.exists(p):
+        recs = []
+        for l in open(p):
+            if l.startswith("#") or not l.strip():
+                continue
+            f = l.rstrip("\n").split("\t")
+            info = dict(x.split("=", 1) for x in f[6].split(";") if "=" in x)
+            ref, alt, calls = f[3], f[4], f[9:]
+            if calls.count("0") == calls.count("1") and alt < ref:
+                ref, alt = alt, ref
+                calls = [{"0": "1", "1": "0"}.get(c, c) for c in calls]
+            rcs = lambda x: x if x == "-" else revcomp(x)
+            fwd = (info.get("before", ""), ref, alt, info.get("after", ""))
+            rev = (revcomp(info.get("after", "")), rcs(ref), rcs(alt), revcomp(info.get("before", "")))
+            recs.append((min(fwd, rev), tuple(calls)))
+        out["indels"] = sorted(recs)
+    return out
+
+
+
 def c11_cli(ctx, broken):
     """thread-count / repetition matrix through the CLI"""
     rnd = random.Random(ctx.seed * 15485863 + 3)
@@ -326,7 +361,7 @@ def c11_cli(ctx, broken):
             return viol("build_and_merge with this thread count differs from the serial table", threads=threads, nsamples=n, k=k,
                         model_case=line, code=r[:400], model=m[:400], spec=s[:400])
         nontriv += 1
-    for fam, nsamp in [(f, n) for n in sample_counts for f in ("random", "isolated")]:
+    for fam, nsamp in [(f, n) for n in sample_counts for f in ("random", "isolated", "indels")]:
         k = rnd.choice([15, 17, 31, 33])
         d = fresh_dir(ctx, "c11cli")
         L = 400 if fam == "random" else 700
@@ -340,6 +375,15 @@ def c11_cli(ctx, broken):
             alt = rnd.choice([c for c in "ACGT" if c != base[p]])
             for c in rnd.sample(range(nsamp), rnd.randint(1, nsamp - 1)):
                 seqs[c][p] = alt
+        if fam == "indels":
+            # every other site also carries an insertion a few bases upstream of the SNP (all four
+            # haplotypes when there are enough samples): two indel bubbles opening at the same k-mer
+            for p in sites[::2]:
+                ins = list(rand_genome(rnd, rnd.randint(1, 8)))
+                gap = rnd.randint(1, k - 3)
+                carriers = rnd.sample(range(nsamp), rnd.randint(1, nsamp - 1))
+                for c in carriers:
+                    seqs[c][p - gap] = "".join(ins) + seqs[c][p - gap]
         close = any(b - a < 2 * k for a, b in zip(sites, sites[1:]))
         files = []
         for si in range(nsamp):
@@ -397,6 +441,15 @@ def c11_cli(ctx, broken):
                     p = lo_prefix + suffix
                     lo[suffix] = open(p).read() if os.path.exists(p) else None
                 cur["lo_ref"] = lo
+                # reference-free ska lo: the same columns / indel records up to order and strand
+                for extra, lname in (([], "lo_free"), (["-m", "0.5"], "lo_free_m")):
+                    fp = os.path.join(d, lname + "_" + tag)
+                    code, out, err = run_ok(["lo", skf, fp, "--threads", str(t)] + extra, d)
+                    evals += 1
+                    if code != 0:
+                        return viol("lo failed with this thread count", threads=t, nsamples=nsamp, stderr=err[-400:], k=k,
+                                    family=fam, sites=sites, genome=base, samples=["".join(x) for x in seqs])
+                    cur[lname] = lo_free_canon(fp)
                 if not base_out:
                     base_out = cur
                     nontriv += 1
@@ -406,6 +459,9 @@ def c11_cli(ctx, broken):
                             if key == "lo_ref" and "lo-ref-nondeterministic" in known_sigs:
                                 # recorded finding: the output of ska lo -r depends on hash-map iteration order
                                 known_hits.append("lo-ref-nondeterministic: " + known_sigs["lo-ref-nondeterministic"][:160])
+                                continue
+                            if key in ("lo_free", "lo_free_m") and "lo-free-nondeterministic" in known_sigs:
+                                known_hits.append("lo-free-nondeterministic: " + known_sigs["lo-free-nondeterministic"][:160])
                                 continue
                             return viol(f"{key} differs from the single-threaded first run", threads=t, rep=rep, nsamples=nsamp, k=k,
                                         family=fam, sites=sites, genome=base, samples=["".join(x) for x in seqs])
@@ -1013,6 +1069,102 @@ def plant_family(rnd, k, nsamp, L, nsites, min_gap, kind="snp"):
     return base, sites
 
 
+LO_SYMS = "ACGT" * 5 + "-" * 3 + "RYSWKMN"
+
+
+def run_lo_pipe(ctx, line):
+    """one `lo_pipe` case in a process of its own (`build_graph` initialises the global pool once;
+    `identify_good_kmers` ends the process when the graph has no entry node)"""
+    sd = os.path.join(ctx.scratch, "impl-lopipe")
+    p = subprocess.run([core.SKAH, "run", sd], input=(line + "\n").encode(), stdout=subprocess.PIPE,
+                       stderr=subprocess.PIPE, env=core.ENV, timeout=600)
+    shutil.rmtree(sd, ignore_errors=True)
+    out = p.stdout.decode("utf-8", "replace").splitlines()
+    if out and out[-1].startswith("lo_pipe-stage"):
+        return "no-entry" if p.returncode == 1 else f"died rc={p.returncode}"
+    return out[-1] if out else f"died rc={p.returncode}"
+
+
+def lo_pipe_stream(ctx, rnd, nfam, nrand, flavour):
+    """the reference-free `ska lo` pipeline, in-process (entry nodes, variant groups recorded by the
+    hook, SNP columns and indel records as written) against the model, on tables built by `ska build`
+    from families with SNPs and indels at random distances and on dense random tables.
+    -> (evaluations, kinds, violation or None)"""
+    evals = 0
+    kinds = {"family": 0, "random": 0, "no-entry": 0, "snp-groups": 0, "indel-groups": 0, "columns": 0, "records": 0}
+    cases = []
+    for it in range(nfam):
+        k = rnd.choice([7, 9, 11, 15, 21, 31, 33])
+        nsamp = rnd.randint(2, 7)
+        L = {7: 60, 9: 120, 11: 200}.get(k, 320)
+        base = rand_genome(rnd, L)
+        seqs = [list(base) for _ in range(nsamp)]
+        for _ in range(rnd.randint(1, 6)):
+            pos = rnd.randrange(k, L - k)
+            kind = rnd.random()
+            car = rnd.sample(range(nsamp), rnd.randint(1, nsamp - 1))
+            if kind < (0.75 if flavour == "snp" else 0.35):
+                alt = rnd.choice([c for c in "ACGT" if c != base[pos]])
+                for c in car:
+                    seqs[c][pos] = alt
+            elif kind < (0.9 if flavour == "snp" else 0.7):
+                ins = rand_genome(rnd, rnd.randint(1, 8))
+                for c in car:
+                    seqs[c][pos] = ins + seqs[c][pos]
+            else:
+                for c in car:
+                    for j in range(pos, min(L - k, pos + rnd.randint(1, 6))):
+                        seqs[c][j] = ""
+        d = fresh_dir(ctx, "lopipe")
+        files = []
+        for i, sq in enumerate(seqs):
+            f = os.path.join(d, f"s{i}.fa")
+            write_fasta(f, ["".join(sq)])
+            files.append(f)
+        info = build_and_nk(ctx, d, k, True, files)
+        if info["status"] != "ok":
+            continue
+        names, table = nk_table(info)
+        w = 64 if k <= 31 else 128
+        tt = ",".join(names) + "|" + ",".join(f"{a}:{b}" for a, b in table.items())
+        cases.append(("family", f"lo_pipe w={w} k={k} rc=1 table={tt} m={rnd.choice(['0/1', '1/10', '1/4', '1/2', '1/1'])} "
+                                f"depth={rnd.choice([0, 1, 2, 4, 4])} ik={rnd.choice([0, 2, 2, 3])}"))
+    for it in range(nrand):
+        k = rnd.choice([5, 5, 7, 9])
+        nsamp = rnd.randint(1, 5)
+        rows = {}
+        for _ in range(rnd.randint(2, 40 if k > 5 else 120)):
+            arms = rand_genome(rnd, k - 1)
+            if arms == revcomp(arms):
+                continue
+            cells = [rnd.choice(LO_SYMS) for _ in range(nsamp)]
+            if all(c == "-" for c in cells):
+                cells[0] = "A"
+            rows[min(pack(arms), pack(revcomp(arms)))] = "".join(cells)
+        if not rows:
+            continue
+        tt = ",".join(f"s{i}" for i in range(nsamp)) + "|" + ",".join(f"{a}:{b}" for a, b in rows.items())
+        cases.append(("random", f"lo_pipe w=64 k={k} rc=1 table={tt} m={rnd.choice(['0/1', '1/10', '1/2', '1/1'])} "
+                                f"depth={rnd.choice([0, 1, 2, 4])} ik={rnd.choice([0, 2, 3])}"))
+    models = core.run_model(ctx, [c[1] for c in cases]) if cases else []
+    for (kind, line), (m, s) in zip(cases, models):
+        r = run_lo_pipe(ctx, line)
+        evals += 1
+        kinds[kind] += 1
+        if r == "no-entry":
+            kinds["no-entry"] += 1
+        else:
+            parts = dict(x.split("=", 1) for x in r.split(" ") if "=" in x)
+            for key, name in (("sg", "snp-groups"), ("ig", "indel-groups"), ("cols", "columns"), ("recs", "records")):
+                if parts.get(key, "~") != "~":
+                    kinds[name] += 1
+        if r != m or (s != "-" and r != s):
+            which = "the model" if r != m else "the model run on the reversed group lists (order independence)"
+            return evals, kinds, {"what": "the ska lo pipeline (entry nodes / variant groups / SNP columns / indel records) differs from " + which,
+                                  "model_case": line, "code": r[:1500], "model": (m if r != m else s)[:1500]}
+    return evals, kinds, None
+
+
 def c17_cli(ctx, broken):
     rnd = random.Random(ctx.seed * 122949829 + 61)
     thorough = ctx.tier == "thorough"
@@ -1050,6 +1202,12 @@ def c17_cli(ctx, broken):
         evals += 1
         if r != m:
             return viol("build_graph differs from the (k-1)-mer graph of the table on both strands", model_case=line, code=r[:600], model=m[:600])
+    # 1b. the whole reference-free pipeline against the model
+    pe, pipe_kinds, pv = lo_pipe_stream(ctx, rnd, 1500 if thorough else 100, 1000 if thorough else 60, "snp")
+    evals += pe
+    nontriv += pe - pipe_kinds["no-entry"]
+    if pv:
+        return viol(pv.pop("what"), **pv)
     # 2. planted isolated-SNP families
     nfam = 200 if thorough else 16
     done = tries = 0
@@ -1160,7 +1318,8 @@ def c17_cli(ctx, broken):
         nontriv += 1
     return {"known": sorted(set(known_hits)),
             "summary": {"evaluations": evals, "nontrivial": nontriv, "families_rejected_by_uniqueness_check": tries - done, "known_finding_hits": len(known_hits),
-                        "what": "build_graph vs model; planted isolated-SNP families ((k-1)-mers unique on both strands, SNPs >= 2k apart and from the ends) with and without reference, threads 1-8: exact truth; arbitrary families (close SNPs, indels, missing data, several -m): well-formedness of alignment, VCF and pseudo-genomes"},
+                        "pipeline_vs_model": pipe_kinds,
+                        "what": "build_graph vs model; the reference-free pipeline in-process vs model (entry nodes, variant groups, SNP columns, indel records) on ska-build tables of families with SNPs/indels at random distances and on dense random tables; planted isolated-SNP families ((k-1)-mers unique on both strands, SNPs >= 2k apart and from the ends) with and without reference, threads 1-8: exact truth; arbitrary families (close SNPs, indels, missing data, several -m): well-formedness of alignment, VCF and pseudo-genomes"},
             "samples": samples}
 
 
@@ -1175,6 +1334,12 @@ def c18_cli(ctx, broken):
         kw.update({"kind": "c18", "what": what})
         return {"summary": {"evaluations": evals, "nontrivial": nontriv}, "violation": kw}
 
+    # the whole reference-free pipeline against the model, indel-rich families
+    pe, pipe_kinds, pv = lo_pipe_stream(ctx, rnd, 1500 if thorough else 100, 400 if thorough else 30, "indel")
+    evals += pe
+    nontriv += pe - pipe_kinds["no-entry"]
+    if pv:
+        return viol(pv.pop("what"), **pv)
     nfam = 150 if thorough else 16
     done = tries = 0
     while done < nfam and tries < 30 * nfam:
@@ -1262,7 +1427,7 @@ def c18_cli(ctx, broken):
         if len(samples) < 2:
             samples.append({"k": k, "samples": nsamp, "planted": [(p, kd, ln) for (p, kd, ln, _, _) in indels], "reported": len(recs), "threads": threads})
     recall = found_total / planted_total if planted_total else 1.0
-    res = {"summary": {"evaluations": evals, "nontrivial": nontriv, "planted": planted_total, "reported_and_matched": found_total, "recall": round(recall, 3),
+    res = {"summary": {"evaluations": evals, "nontrivial": nontriv, "pipeline_vs_model": pipe_kinds, "planted": planted_total, "reported_and_matched": found_total, "recall": round(recall, 3),
                        "what": "planted isolated indels (length 1-10, >= 4k apart, (k-1)-mers unique per sample), k in {11,15,21,31}, 3-8 samples, threads 1-4: every record checked by substring search in the samples (carriers exact, no wrong genotype, one planted indel each, none twice), recall >= 90% overall"},
            "samples": samples}
     if planted_total >= 20 and recall < 0.9:
